@@ -29,9 +29,11 @@ ASSUMPTIONS = [
     'SQLite file; only apps that no remaining app refers to are removed '
     '(Django could not load the remaining models otherwise)',
 ]
-FLOORS = {'quick': {'nontrivial': 20, 'tables_compared': 100,
+FLOORS = {'quick': {'second_purge_of_process': 2, 'decoy_runs': 10, 
+                    'nontrivial': 20, 'tables_compared': 100,
                     'stale_referrer_cases': 4, 'partial_purges': 1},
-          'thorough': {'nontrivial': 300, 'tables_compared': 1500,
+          'thorough': {'second_purge_of_process': 15, 'decoy_runs': 60, 
+                       'nontrivial': 300, 'tables_compared': 1500,
                        'stale_referrer_cases': 50, 'partial_purges': 10}}
 SIZES = {'quick': 64, 'thorough': 600}
 TIMEOUT = {'quick': 170, 'thorough': 1700}
